@@ -80,7 +80,7 @@ def main():
             c.violation(key, f"{f['codec']}: {f['what']} (the unit is stored as the text {ut!r})", repl)
         else:
             c.violation(f"{f['kind']}:{f['codec']}:{f['what'][:40]}", f"{f['kind']} through {f['codec']}: {f['what']}", repl)
-    c.sample({"unit": units[0], "quantity": quantities[0]}); c.sample({"codecs": sorted(set(k.split(':')[1] for k in r["counts"]))})
+    c.sample({"unit": units[0], "quantity": quantities[0]}); c.sample({"codecs": sorted(set(k.split(':')[1] for k in r["counts"] if ':' in k))})
     c.finish(rule="exhaustive over every registered dimension, prefix and unit (after importing all shipped modules) x {pickle (default and protocol 2), copy, deepcopy, JSON codec classes, "
                   "installed codecs, pydantic TypeAdapter via JSON text and via plain dict}; plus random prefixed/compound units, mixed-base and anonymous prefixes, and int/float/Decimal "
                   "quantities (also through the SQL composite form): identity and unchanged names/symbols for singletons; equality, magnitude type and (pickle/copy) identical unit for "
